@@ -71,18 +71,35 @@ func (dm *DMap) deleteFromPreviousOwners(key string, owners []discovery.Member) 
 
 func (dm *DMap) deleteBackupOnCluster(hkey uint64, key string) error {
 	owners := dm.s.backup.PartitionOwnersByHKey(hkey)
+	deleteOn := func(mem discovery.Member) error {
+		cmd := protocol.NewDelEntry(dm.name, key).SetReplica().Command(dm.s.ctx)
+		rc := dm.s.client.Get(mem.String())
+		err := rc.Process(dm.s.ctx, cmd)
+		if err != nil {
+			dm.s.log.V(3).Printf("[ERROR] Failed to delete replica key/value on %s: %s", dm.name, err)
+			return protocol.ConvertError(err)
+		}
+		return protocol.ConvertError(cmd.Err())
+	}
+
+	// Previous backup owners that still hold data come first in the list. Delete on them first:
+	// the call waits for a fragment move in progress, so a table that was exported before this
+	// delete cannot be merged on a current backup owner after the key has been deleted there.
+	previous := len(owners) - (dm.s.config.ReplicaCount - 1)
+	if previous < 0 {
+		previous = 0
+	}
+	for _, owner := range owners[:previous] {
+		if err := deleteOn(owner); err != nil {
+			return err
+		}
+	}
+
 	var g errgroup.Group
-	for _, owner := range owners {
+	for _, owner := range owners[previous:] {
 		mem := owner
 		g.Go(func() error {
-			cmd := protocol.NewDelEntry(dm.name, key).SetReplica().Command(dm.s.ctx)
-			rc := dm.s.client.Get(mem.String())
-			err := rc.Process(dm.s.ctx, cmd)
-			if err != nil {
-				dm.s.log.V(3).Printf("[ERROR] Failed to delete replica key/value on %s: %s", dm.name, err)
-				return protocol.ConvertError(err)
-			}
-			return protocol.ConvertError(cmd.Err())
+			return deleteOn(mem)
 		})
 	}
 	return g.Wait()
